@@ -1218,9 +1218,14 @@ Qed.
 (* the stacked object takes exactly one positional argument (no keywords) *)
 Lemma stacked_call_Some vsplit (J : list dens) (args : list val) (kw : asg) v :
   stacked_call vsplit J args kw = Some v ->
-  exists x, args = [x] /\ kw = [] /\ jlogd_kw J (combine (jparams J) (vsplit (jdims J) x)) = Some v.
+  exists x, ((args = [x] /\ kw = []) \/ (args = [] /\ kw = [(stacked_key, x)])) /\
+            jlogd_kw J (combine (jparams J) (vsplit (jdims J) x)) = Some v.
 Proof.
-  unfold stacked_call. destruct args as [|x [|y r]]; try discriminate. destruct kw; [|discriminate]. eauto.
+  unfold stacked_call. destruct args as [|x [|y r]].
+  - destruct kw as [|[k x] [|q kw]]; try discriminate.
+    destruct (Nat.eqb k stacked_key) eqn:E; [|discriminate]. apply Nat.eqb_eq in E. subst k. eauto.
+  - destruct kw; [|discriminate]. eauto.
+  - discriminate.
 Qed.
 
 (* what "names every parameter exactly once" excludes *)
@@ -1268,11 +1273,11 @@ Proof.
 Qed.
 
 (* a distribution built from its slots and conditioned: its free variables are those of the bound slots *)
-Lemma dfree_mk_dist {val M} name dim ss c f (kw : list (var * val)) :
-  dfree (dist_bind (@mk_dist val M name dim ss c f) kw) = cond_vars (map (bind_slot (dom kw)) ss).
+Lemma dfree_mk_dist {val M} name dim ss attrs c f (kw : list (var * val)) :
+  dfree (dist_bind (@mk_dist val M name dim ss attrs c f) kw) = cond_vars (map (bind_slot (dom kw)) ss).
 Proof.
   rewrite cond_vars_bind, dfree_bind.
-  assert (dfree (@mk_dist val M name dim ss c f) = cond_vars ss) as ->; [|reflexivity].
+  assert (dfree (@mk_dist val M name dim ss attrs c f) = cond_vars ss) as ->; [|reflexivity].
   unfold dfree, mk_dist. cbn [dvars dbound]. apply filter_all. reflexivity.
 Qed.
 
@@ -1428,3 +1433,57 @@ Proof.
   intros W <-. split; [|reflexivity]. cbn. now rewrite (wf_init_ok val M J W).
 Qed.
 End Views.
+
+(* ---------------- re-assembly and user-built posteriors ---------------- *)
+Section Reassembly.
+Variable val : Type.
+Variable M : Mon.
+Hypothesis ML : MonLaws M.
+Notation asg := (list (var * val)).
+
+(* a reduced (non-conditional) Distribution, with whatever constant it carries, is a well-formed
+   one-factor joint, and that joint evaluates like the distribution *)
+Lemma join_single (d : dist val M) :
+  wf_dens val M (D d) -> dfree d = [] ->
+  obj_join [Some (OD (D d))] = Some (OJ FJoint [D d]) /\ wf val M [D d] /\
+  forall a : asg, jlogd_kw [D d] a = dens_logd_kw (D d) a.
+Proof.
+  intros W F. assert (DP : dparams d = [dname d]) by (unfold dparams; now rewrite F).
+  assert (WJ : wf val M [D d]).
+  { split; [cbn; constructor; [intros [] | constructor]|]. split; [now constructor|].
+    constructor; [|constructor]. cbn. rewrite DP. apply incl_refl. }
+  split; [|split; [exact WJ|]].
+  - unfold obj_join. cbn [map map_opt]. now rewrite (wf_init_ok val M _ WJ).
+  - intros a. rewrite (jlogd_kw_val val M ML _ a WJ). unfold jval, dens_logd_kw. cbn [map jparams filter isD dens_name dens_params].
+    rewrite DP. destruct (keys_ok a [dname d]); [|reflexivity]. rewrite osumR_cons. apply (oadd_0_r M ML).
+Qed.
+
+(* any well-formed list of single densities of a history can be re-assembled *)
+Lemma join_wf (fs : list (dens val M)) :
+  wf val M fs -> obj_join (map (fun f => Some (OD f)) fs) = Some (OJ FJoint fs).
+Proof.
+  intros W. unfold obj_join.
+  assert (map_opt (fun o => match o with Some (OD f) => Some f | _ => None end) (map (fun f => Some (OD f)) fs) = Some fs) as ->.
+  { clear W. induction fs as [|f fs IH]; cbn; [reflexivity | now rewrite IH]. }
+  now rewrite (wf_init_ok val M fs W).
+Qed.
+
+(* Posterior(likelihood, prior) built by the user = what the joint's reduction builds from the same
+   two factors (no evaluated factor: constant 0) *)
+Lemma mkpost_reduce (ld pr : dist val M) (data : val) :
+  wf val M [L ld data; D pr] ->
+  obj_mkpost (OD (L ld data)) (OD (D pr)) = Some (OP ld data pr (mzero M)) /\
+  reduce FJoint [L ld data; D pr] = Some (OP ld data pr (mzero M)) /\
+  wf_obj val M (OP ld data pr (mzero M)).
+Proof.
+  intros W.
+  destruct (single_dist val M [L ld data; D pr] pr W eq_refl) as [Fpr [_ LP]].
+  pose proof (LP ld data (or_introl eq_refl)) as Fld.
+  assert (R : reduce FJoint [L ld data; D pr] = Some (OP ld data pr (mzero M))).
+  { unfold reduce. cbn. rewrite Fld. unfold dparams. rewrite Fpr. cbn. rewrite set_eqb_single. cbn.
+    unfold is_cond. now rewrite Fpr. }
+  split; [|split; [exact R|]].
+  - unfold obj_mkpost. rewrite Fld. unfold is_cond. now rewrite Fpr.
+  - destruct (reduce_spec val M ML FJoint _ _ W R) as [_ [WO _]]. exact WO.
+Qed.
+End Reassembly.
